@@ -564,6 +564,56 @@ func runC05(c *Ctx) {
 		c.ob("C05-R5", fnKey(xr)+"#no-query-split-of-a-separate-path", p, len(sepLoads) > 0 && hit == nil, "ExecuteRoute looks for '?' in the request path although the caller passed the query string separately (QuerySeparate): a literal '?' in a decoded path segment is taken for the start of the query", c.blockPath(path)...)
 	}
 
+	// ---- R8 the request names no variable
+	c.rule("C05-R8", "TNT: the name under which a value is bound for the route body (VM.SetLocal in the compiled handler; Environment.Define/DefineWithSource in Interpreter.ExecuteRoute) never derives from the request's query string, headers or body (URL.Query()/RawQuery, the parsed raw-query map, Header, the decoded body): only declared names are bound, so `?id=9` cannot replace the path parameter `id` of /accounts/:id")
+	{
+		fromRequest := func(v ssa.Value) bool {
+			return derivesFrom(v, func(x ssa.Value) bool {
+				switch y := x.(type) {
+				case *ssa.Call:
+					switch callName(y) {
+					case "net/url.URL.Query", "net/url.ParseQuery", interpPath + ".ExtractRawQueryParams", interpPath + ".parseRawQuery":
+						return true
+					}
+				case *ssa.UnOp:
+					if y.Op == token.MUL {
+						if nt, f, ok := fieldOf(y.X); ok && nt != nil {
+							if (nt.Obj().Name() == "URL" && f == "RawQuery") || (nt.Obj().Name() == "Request" && (f == "Header" || f == "RawQuery" || f == "Body" || f == "Headers")) {
+								return true
+							}
+						}
+					}
+				}
+				return false
+			})
+		}
+		n := 0
+		check := func(fn *ssa.Function, callee string, nameIdx int) {
+			k := 0
+			eachInstr(fn, func(_ *ssa.BasicBlock, _ int, ins ssa.Instruction) {
+				call, ok := ins.(*ssa.Call)
+				if !ok || callName(call) != callee || len(call.Call.Args) <= nameIdx {
+					return
+				}
+				n++
+				k++
+				c.ob("C05-R8", fnKey(fn)+"#bound-name-is-declared-"+short(callee)+"-"+itoa(k), call.Pos(), !fromRequest(call.Call.Args[nameIdx]),
+					"a variable of the route body is named by the request (the name comes from the query string / headers / body keys): a query key spelled like a path parameter, `input`, `auth` or a local of the body replaces that binding - GET /accounts/7?id=9 runs the body with id=9")
+			})
+		}
+		if cr := c.fn(glyphCmd, "createCompiledRouteHandler"); cr != nil {
+			for _, cl := range innerClosures(cr) {
+				check(cl, vmPath+".VM.SetLocal", 1)
+			}
+		}
+		if xr := c.fn(interpPkg, "Interpreter.ExecuteRoute"); xr != nil {
+			check(xr, interpPath+".Environment.Define", 1)
+			check(xr, interpPath+".Environment.DefineWithSource", 1)
+		}
+		c.Sites["C05-R8#bindings"] = n
+		c.floor("C05-R8", 6)
+	}
+
 	// ---- R7 dispatch-time path is matched as it arrived
 	c.rule("C05-R7", "def-use: what Router.Match hands to matchRoute derives from its path parameter only through the leading-slash normalisation and the split into segments (strings.HasPrefix, concatenation with \"/\", splitPath/strings.Split): no TrimSpace/Trim*/ToLower/Replace/Clean/Unescape is applied to the already percent-decoded request path, so the segments that are bound are the segments that were sent")
 	if m := c.fn(serverPkg, "Router.Match"); m != nil && len(m.Params) >= 3 {
@@ -716,6 +766,52 @@ func runC05(c *Ctx) {
 		})
 		if n == 0 {
 			c.ob("C05-R6", fnKey(fn)+"#binds-parameters", fn.Pos(), false, "no parameter binding found")
+		}
+	}
+	// the interpreter splits the path it was given: on the way from Request.Path to the binder nothing but cutting
+	// at the query delimiter happens (no URL parsing, unescaping, cleaning, case folding)
+	if xr := c.fn(interpPkg, "Interpreter.ExecuteRoute"); xr != nil {
+		allowed := map[string]bool{"strings.Index": true, "strings.IndexByte": true, "strings.Cut": true, "strings.SplitN": true, "builtin.len": true}
+		n := 0
+		eachInstr(xr, func(_ *ssa.BasicBlock, _ int, ins ssa.Instruction) {
+			call, ok := ins.(*ssa.Call)
+			if !ok {
+				return
+			}
+			sf := staticFn(call)
+			if sf == nil || sf.Pkg != xr.Pkg || sf.Signature.Results().Len() == 0 {
+				return
+			}
+			if mt, ok := sf.Signature.Results().At(0).Type().Underlying().(*types.Map); !ok || mt.Elem().String() != "string" || mt.Key().String() != "string" {
+				return
+			}
+			// the actual-path argument: the string argument that derives from Request.Path
+			for _, a := range call.Call.Args {
+				if !isStringType(a.Type()) || !derivesFrom(a, func(v ssa.Value) bool { return loadedFromField(v, "Request", "Path") }) {
+					continue
+				}
+				n++
+				via := ""
+				derivesFrom(a, func(v ssa.Value) bool {
+					if cl, ok := v.(*ssa.Call); ok {
+						if nm := callName(cl); !allowed[nm] {
+							via = short(nm)
+						}
+					}
+					if ex, ok := v.(*ssa.Extract); ok {
+						if cl, ok := ex.Tuple.(*ssa.Call); ok {
+							if nm := callName(cl); !allowed[nm] {
+								via = short(nm)
+							}
+						}
+					}
+					return false
+				})
+				c.ob("C05-R6", fnKey(xr)+"#request-path-reaches-the-binder-unprocessed-"+itoa(n), call.Pos(), via == "", "the request path passes through "+via+" before its segments are bound: net/http has already percent-decoded it once, so parsing or unescaping it again turns %2520 into a space, %23 into a fragment delimiter and %252F into a slash - the interpreter binds a different string from the one the router matched and the compiled engine binds")
+			}
+		})
+		if n == 0 {
+			c.ob("C05-R6", fnKey(xr)+"#request-path-reaches-the-binder-unprocessed", xr.Pos(), false, "ExecuteRoute hands no value derived from Request.Path to a parameter binder")
 		}
 	}
 	if mr := c.fn("pkg/server", "matchRoute"); mr != nil {
